@@ -97,6 +97,11 @@ type irSpec struct {
 	Zero       map[string]string // zero values of configured types (for `var x T`)
 	SliceRange map[string]irCall // by type: x[lo:hi] (%[1]s x, %[2]s lo, %[3]s hi)
 	SliceTo    map[string]irCall // by type: x[:hi]  (%[1]s x, %[2]s hi)
+	// WhileFuel: Lean Nat terms (over binders / locals, by Lean name), one per general `for init; cond; post {…}` loop in source
+	// order (any for-loop that is not `for i := a; i < n; i++`). Such a loop becomes a recursion on the fuel:
+	// `if !cond {break}; body; post` per step (`continue` runs post); running out of fuel yields irSpec.Panic, so the theorem
+	// about the generated definition also proves that the fuel suffices. Unset: such loops fail the extraction as before.
+	WhileFuel []string
 	// StmtHook translates bespoke statement patterns into a list of `let`s on tracked variables
 	// (Var = Lean name of a tracked variable or a fresh auxiliary name); ok=false: not handled.
 	StmtHook func(t *irT, s ast.Stmt, env *irEnv) (lets []irLet, ok bool, err error)
@@ -367,9 +372,12 @@ type irT struct {
 	pre     []irLet   // pending lets of effectful calls (irEffCall) in the statement being translated
 	ranges  []irRange // enclosing `for i[, x] := range xs` loops with an index variable (innermost last)
 	nshadow int
+	nPanicElse int // number of `if guard then … else <panic>` emitted so far (engineer pipe)
 	deferB   []ast.Stmt // irSpec.DeferInline (resil): body of the inlined deferred closure
 	deferred []ast.Stmt // … while it is active (after the marker statement)
 	plabel  string // label of the loop statement being translated (set by a LabeledStmt, consumed by loopFn)
+	nwhile  int    // general for-loops translated so far (index into irSpec.WhileFuel)
+	whileX  bool   // the next loopFn call is a general for-loop: fuel exhaustion = Panic
 	retK    func(vals []irTerm, ind string) (string, error) // inside an inlined closure body: what `return` does
 	nclos   int
 	closSeen map[string]*ast.FuncLit // closures defined inside statements analysed by `assigned` (engineer mux)
@@ -1534,6 +1542,7 @@ func (t *irT) stmt(s ast.Stmt, env *irEnv, ind string, next irNext) (string, err
 		if err != nil {
 			return "", err
 		}
+		t.nPanicElse++
 		return fmt.Sprintf("%sif %s then\n%s%selse\n%s", ind, strings.Join(g, " && "), r, ind, pb), nil
 	}
 	if len(t.pre) != 0 {
@@ -1624,6 +1633,7 @@ func (t *irT) stmtCore(s ast.Stmt, env *irEnv, ind string, next irNext) (string,
 		if err != nil {
 			return "", err
 		}
+		t.nPanicElse++
 		return fmt.Sprintf("%sif %s then\n%s%selse\n%s", ind, strings.Join(g, " && "), r, ind, pb), nil
 	}
 	if t.ignorable(s) {
@@ -1817,6 +1827,9 @@ func (t *irT) stmtCore(s ast.Stmt, env *irEnv, ind string, next irNext) (string,
 	case *ast.RangeStmt:
 		return t.rangeStmt(x, env, ind, next)
 	case *ast.ForStmt:
+		if len(t.spec.WhileFuel) > 0 && !irIsCountedFor(x) {
+			return t.whileStmt(x, env, ind, next)
+		}
 		return t.forStmt(x, env, ind, next)
 	case *ast.SelectStmt:
 		d, err := t.desugarSelect(x, env)
@@ -2269,6 +2282,9 @@ func (t *irT) ifCore(x *ast.IfStmt, outer, cenv *irEnv, ind string, next irNext)
 	t.assigned(thenB, outer, set)
 	t.assigned(elseB, outer, set)
 	keys := t.sortedKeys(set, outer)
+	// A branch that contains a partial call (its `else <panic>` has the function's result type, not the
+	// merge tuple's) can neither be merged nor skipped: duplicate the continuation instead (engineer pipe).
+	nPanic0 := t.nPanicElse
 	if len(keys) == 0 {
 		// no modelled effect; the branches must still translate (nothing is skipped unseen)
 		fin := func(ind string) (string, error) { return ind + "()\n", nil }
@@ -2277,6 +2293,9 @@ func (t *irT) ifCore(x *ast.IfStmt, outer, cenv *irEnv, ind string, next irNext)
 		}
 		if _, err := t.block(elseB, cenv, ind, fin); err != nil {
 			return "", err
+		}
+		if t.nPanicElse != nPanic0 {
+			return emit(after, after)
 		}
 		t.skipped = append(t.skipped, "(no modelled effect) "+t.r.Src(x))
 		return next(outer, ind)
@@ -2290,6 +2309,9 @@ func (t *irT) ifCore(x *ast.IfStmt, outer, cenv *irEnv, ind string, next irNext)
 	el, err := t.block(elseB, cenv, ind+"    ", fin)
 	if err != nil {
 		return "", err
+	}
+	if t.nPanicElse != nPanic0 {
+		return emit(after, after)
 	}
 	name := val
 	if len(keys) > 1 {
@@ -2440,6 +2462,11 @@ func (t *irT) loopFn(body []ast.Stmt, env *irEnv, ind string, next irNext,
 	}
 	lblCont := t.loop.lblCont
 	t.inLoop = true
+	// general for-loops (irSpec.WhileFuel): running out of fuel is the Panic result, not the end of the loop
+	nilRHS := ".inr " + val
+	if t.whileX {
+		nilRHS, t.whileX = t.wrapRet(t.spec.Panic), false
+	}
 	savedRanges := t.ranges
 	b, err := t.stmts(body, bodyEnv(env.push()), "    ", cont)
 	t.loop, t.inLoop, t.ranges = savedLoop, savedIn, savedRanges
@@ -2448,8 +2475,8 @@ func (t *irT) loopFn(body []ast.Stmt, env *irEnv, ind string, next irNext,
 	}
 	if lblCont != "" {
 		// result: .inl (.inl r) = return r, .inl (.inr vars) = `continue <label>` of the enclosing loop, .inr vars = loop done
-		def := fmt.Sprintf("def %s %s : %s → Sum (Sum %s %s) %s\n  | %s => .inr %s\n  | %s =>\n%s",
-			name, strings.Join(binders, " "), domTy, rty, lsty, lsty, nilPat, val, consPat, b)
+		def := fmt.Sprintf("def %s %s : %s → Sum (Sum %s %s) %s\n  | %s => %s\n  | %s =>\n%s",
+			name, strings.Join(binders, " "), domTy, rty, lsty, lsty, nilPat, nilRHS, consPat, b)
 		t.aux = append(t.aux, def)
 		r, err := next(env, ind+"  ")
 		if err != nil {
@@ -2462,8 +2489,8 @@ func (t *irT) loopFn(body []ast.Stmt, env *irEnv, ind string, next irNext,
 		return paramPre + fmt.Sprintf("%smatch %s with\n%s| .inl (.inl r__) => %s\n%s| .inl (.inr %s) =>\n%s%s| .inr %s =>\n%s",
 			ind, callWith(extraArgInit, initArg), ind, t.wrapRet("r__"), ind, pat, oc, ind, pat, r), nil
 	}
-	def := fmt.Sprintf("def %s %s : %s → Sum %s %s\n  | %s => .inr %s\n  | %s =>\n%s",
-		name, strings.Join(binders, " "), domTy, rty, lsty, nilPat, val, consPat, b)
+	def := fmt.Sprintf("def %s %s : %s → Sum %s %s\n  | %s => %s\n  | %s =>\n%s",
+		name, strings.Join(binders, " "), domTy, rty, lsty, nilPat, nilRHS, consPat, b)
 	t.aux = append(t.aux, def)
 
 	r, err := next(env, ind+"  ")
@@ -3502,4 +3529,106 @@ func irInlineDefer(r *Repo, body []ast.Stmt) ([]ast.Stmt, []ast.Stmt, error) {
 		return nil, nil, bad
 	}
 	return out, B, nil
+}
+
+// ---------------------------------------------------------------------------
+// general for-loops on fuel (engineer auth, C06; irSpec.WhileFuel)
+
+// irIsCountedFor: `for i := a; i < n; i++` (the shape forStmt handles).
+func irIsCountedFor(x *ast.ForStmt) bool {
+	as, ok := x.Init.(*ast.AssignStmt)
+	if !ok || as.Tok != token.DEFINE || len(as.Lhs) != 1 || len(as.Rhs) != 1 {
+		return false
+	}
+	iv, ok := as.Lhs[0].(*ast.Ident)
+	if !ok {
+		return false
+	}
+	ce, ok := x.Cond.(*ast.BinaryExpr)
+	if !ok || ce.Op != token.LSS {
+		return false
+	}
+	if id, ok := ce.X.(*ast.Ident); !ok || id.Name != iv.Name {
+		return false
+	}
+	post, ok := x.Post.(*ast.IncDecStmt)
+	if !ok || post.Tok != token.INC {
+		return false
+	}
+	id, ok := post.X.(*ast.Ident)
+	return ok && id.Name == iv.Name
+}
+
+// irRewriteContinue: every `continue` of this loop (not of nested loops) first runs the post statement.
+func irRewriteContinue(b []ast.Stmt, post ast.Stmt) []ast.Stmt {
+	if post == nil {
+		return b
+	}
+	var one func(s ast.Stmt) ast.Stmt
+	list := func(l []ast.Stmt) []ast.Stmt {
+		out := make([]ast.Stmt, len(l))
+		for i, s := range l {
+			out[i] = one(s)
+		}
+		return out
+	}
+	one = func(s ast.Stmt) ast.Stmt {
+		switch x := s.(type) {
+		case *ast.BranchStmt:
+			if x.Tok == token.CONTINUE && x.Label == nil {
+				return &ast.BlockStmt{List: []ast.Stmt{post, x}}
+			}
+		case *ast.BlockStmt:
+			return &ast.BlockStmt{List: list(x.List)}
+		case *ast.IfStmt:
+			c := *x
+			c.Body = &ast.BlockStmt{List: list(x.Body.List)}
+			if x.Else != nil {
+				c.Else = one(x.Else)
+			}
+			return &c
+		case *ast.SwitchStmt:
+			c := *x
+			body := &ast.BlockStmt{}
+			for _, cl := range x.Body.List {
+				cc := *(cl.(*ast.CaseClause))
+				cc.Body = list(cc.Body)
+				body.List = append(body.List, &cc)
+			}
+			c.Body = body
+			return &c
+		}
+		return s
+	}
+	return list(b)
+}
+
+// whileStmt: `for init; cond; post { body }` as a recursion on irSpec.WhileFuel[k].
+func (t *irT) whileStmt(x *ast.ForStmt, env *irEnv, ind string, next irNext) (string, error) {
+	if t.nwhile >= len(t.spec.WhileFuel) {
+		return "", fmt.Errorf("no fuel configured for general for-loop #%d (%s)", t.nwhile+1, t.r.Src(x.Cond))
+	}
+	if t.spec.Panic == "" {
+		return "", fmt.Errorf("general for-loop needs irSpec.Panic (the result when the fuel runs out)")
+	}
+	fuel := t.spec.WhileFuel[t.nwhile]
+	t.nwhile++
+	var body []ast.Stmt
+	if x.Cond != nil {
+		body = append(body, &ast.IfStmt{Cond: &ast.UnaryExpr{Op: token.NOT, X: &ast.ParenExpr{X: x.Cond}},
+			Body: &ast.BlockStmt{List: []ast.Stmt{&ast.BranchStmt{Tok: token.BREAK}}}})
+	}
+	body = append(body, irRewriteContinue(x.Body.List, x.Post)...)
+	if x.Post != nil {
+		body = append(body, x.Post)
+	}
+	core := func(env2 *irEnv, ind string) (string, error) {
+		t.whileX = true
+		return t.loopFn(body, env2, ind, next, "", "", "", "Nat", "0", "fuel__ + 1", "fuel__", "("+fuel+")",
+			func(e *irEnv) *irEnv { return e })
+	}
+	if x.Init != nil {
+		return t.stmt(x.Init, env, ind, core)
+	}
+	return core(env, ind)
 }
